@@ -7,7 +7,15 @@
    and the thread-local code that follows it up to the next primitive call.  The only shared
    plain variables (Signal::signaled, Monitor::signaled) are touched exclusively in the move
    that acquired the guarding mutex (after pthread_mutex_lock / pthread_cond_wait returned), so
-   splitting those accesses into moves of their own would add no behaviours. *)
+   splitting those accesses into moves of their own adds no behaviours.  This is PROVED (round 4):
+   SyncFine.v defines the fine machine in which every read / write of the two flags is a move of its
+   own; SyncFineInv.v proves that a thread in front of such an access owns the guarding mutex
+   (fine_signal_accesses_under_mutex; fine_monitor_accesses_under_mutex under the client contract
+   "nobody unlocks a monitor another thread owns" = foreign_unlock = false, MM being a default-type
+   mutex the client locks and unlocks); SyncFineMain.v proves the simulation
+   (fine_granularity_adds_no_behaviours: trace inclusion up to commuting independent events, state
+   agreement with the completed fine state); SyncFineTrace.v transfers the six history predicates
+   (fine_all_ok).  Statements in Properties_C11.v, rows [G]. *)
 From Coq Require Import ZArith List Bool Arith.
 From Sync Require Import Sched SyncSpec.
 Import ListNotations.
